@@ -201,6 +201,18 @@ func (w *raceWorld) quiet(n *rname, L int64) bool {
 	return true
 }
 
+// addSubTimed: addSubscriber can block for ever (send on a full queue with push.mu held).
+func addSubTimed(push *blockchain.Push, req *types.PushSubscribeReq) int64 {
+	res := make(chan error, 1)
+	go func() { res <- push.AddSubscriberVerif(req) }()
+	select {
+	case err := <-res:
+		return errCode(err)
+	case <-time.After(30 * time.Second):
+		return 8
+	}
+}
+
 func runRace(o *hlib.Out, h Race) {
 	ents := buildEnts(0, h.Salt, h.Specs)
 	w := &raceWorld{ents: ents, visible: int64(h.N0), kv: map[string][]byte{}, names: map[string]*rname{}, byLast: map[string]*rname{}}
@@ -230,17 +242,17 @@ func runRace(o *hlib.Out, h Race) {
 	switch h.Variant {
 	case "fresh":
 		for _, nm := range order {
-			codes[nm] = append(codes[nm], errCode(push.AddSubscriberVerif(req(nm, true))))
-			codes[nm] = append(codes[nm], errCode(push.AddSubscriberVerif(req(nm, false))))
-			codes[nm] = append(codes[nm], errCode(push.AddSubscriberVerif(req(nm, false))))
+			codes[nm] = append(codes[nm], addSubTimed(push, (req(nm, true))))
+			codes[nm] = append(codes[nm], addSubTimed(push, (req(nm, false))))
+			codes[nm] = append(codes[nm], addSubTimed(push, (req(nm, false))))
 		}
 	case "deact":
 		atomic.StoreInt32(&w.down, 1)
 		for _, nm := range order {
-			codes[nm] = append(codes[nm], errCode(push.AddSubscriberVerif(req(nm, true))))
+			codes[nm] = append(codes[nm], addSubTimed(push, (req(nm, true))))
 		}
 		// three failed posts per name (one second apart), then the task is gone
-		deadline := time.Now().Add(25 * time.Second)
+		deadline := time.Now().Add(60 * time.Second)
 		for time.Now().Before(deadline) {
 			gone := true
 			for _, nm := range order {
@@ -264,12 +276,12 @@ func runRace(o *hlib.Out, h Race) {
 		atomic.StoreInt64(&w.visible, int64(len(ents)))
 		atomic.StoreInt32(&w.down, 0)
 		for _, nm := range order {
-			codes[nm] = append(codes[nm], errCode(push.AddSubscriberVerif(req(nm, false))))
-			codes[nm] = append(codes[nm], errCode(push.AddSubscriberVerif(req(nm, false))))
+			codes[nm] = append(codes[nm], addSubTimed(push, (req(nm, false))))
+			codes[nm] = append(codes[nm], addSubTimed(push, (req(nm, false))))
 		}
 	}
 	L := atomic.LoadInt64(&w.visible) - 1
-	deadline := time.Now().Add(20 * time.Second)
+	deadline := time.Now().Add(60 * time.Second)
 	for time.Now().Before(deadline) {
 		all := true
 		for _, nm := range order {
